@@ -802,6 +802,7 @@ func runC03(c *Ctx) {
 	infos := mappingInfos(c, "C03")
 	c.R.floor("C03", "mapping implementations", len(infos), 3)
 	c03GammaCallSites(c, infos)
+	c03FloatRangeSiblings(c, infos)
 	for _, mi := range infos {
 		name := mi.t.Obj().Name()
 		// D1 floor idiom
@@ -1336,4 +1337,91 @@ func c03GammaCallSites(c *Ctx, infos []mappingInfo) {
 		}
 	}
 	c.R.floor(rule, "call sites of the gamma constructors", n, 6)
+}
+
+// c03FloatRangeSiblings (D3): besides the int32 bound, every mapping kind limits its indexable range so that Value and
+// LowerBound stay finite normal floats: max = … min(·, X/(2·G)·(G+1)), min = … max(·, minNormal·G), with G the base of
+// the kind's non-interpolated logarithm (gamma, or gamma^(1/k)). The three constructors are siblings: with G abstracted
+// their float-range terms are the same term. A kind whose term differs from its siblings' has drifted (a factor
+// inverted, a constant changed); a consistent rewrite of all three is not reported.
+func c03FloatRangeSiblings(c *Ctx, infos []mappingInfo) {
+	const rule = "C03-D3"
+	abstractG := func(t *Term) *Term {
+		return rewriteTerm(t, func(x *Term) *Term {
+			x0 := x.unver()
+			if x0.isParam(0) {
+				return mk("G", "", nil)
+			}
+			if x0.Op == "call" && x0.Sym == "math.Pow" && len(x0.Args) == 2 && x0.Args[0].unver().isParam(0) && x0.Args[1].unver().Op == "const" {
+				return mk("G", "", nil)
+			}
+			return nil
+		})
+	}
+	floatSide := func(v *Term, outer string) *Term { // the operand of min/max that does not mention the int32 bounds
+		v = stripVers(v)
+		if v.Op != "call" || v.Sym != outer || len(v.Args) != 2 {
+			return nil
+		}
+		for i := 0; i < 2; i++ {
+			hasInt32 := false
+			v.Args[i].walk(func(x *Term) bool {
+				if x.Op == "const" && (x.Sym == "2147483647" || x.Sym == "-2147483648") {
+					hasInt32 = true
+				}
+				return true
+			})
+			if hasInt32 {
+				return v.Args[1-i]
+			}
+		}
+		return nil
+	}
+	for _, side := range []struct{ what, outer string }{{"max", "math.Min"}, {"min", "math.Max"}} {
+		keys := map[string][]string{}
+		for _, mi := range infos {
+			fld := mi.maxF
+			if side.what == "min" {
+				fld = mi.minF
+			}
+			v := mi.ctorVals[fld]
+			if v == nil {
+				continue
+			}
+			fs := floatSide(v, side.outer)
+			k := "no float-range operand"
+			if fs != nil {
+				k = sortCommutative(abstractG(fs)).Key()
+			}
+			keys[k] = append(keys[k], mi.t.Obj().Name())
+		}
+		// the majority form is the reference
+		best := ""
+		for k, ns := range keys {
+			if len(ns) > len(keys[best]) || best == "" {
+				best = k
+			}
+		}
+		for k, ns := range keys {
+			for _, n := range ns {
+				c.R.check(k == best && len(keys[best]) >= 2, rule, n+"/bound/"+side.what+"/float-range-like-its-siblings", n, "", "the float-range operand of the "+side.what+" indexable value is the same term as the siblings', with the kind's base abstracted", map[bool]string{true: "agrees", false: shorten(k, 160) + " vs " + shorten(best, 160)}[k == best])
+			}
+		}
+	}
+}
+
+// sortCommutative re-orders the operands of + and * by key (bottom-up), so that terms that differ only in the order a
+// commutative operator lists its operands compare equal after sub-terms were replaced.
+func sortCommutative(t *Term) *Term {
+	if t == nil || len(t.Args) == 0 || t.Op == "phi" {
+		return t
+	}
+	args := make([]*Term, len(t.Args))
+	for i, a := range t.Args {
+		args[i] = sortCommutative(a)
+	}
+	if t.Op == "bin" && (t.Sym == "+" || t.Sym == "*") && len(args) == 2 && args[0].Key() > args[1].Key() {
+		args[0], args[1] = args[1], args[0]
+	}
+	return mk(t.Op, t.Sym, t.V, args...)
 }
